@@ -7,7 +7,6 @@ From PV Require Import Lib.PyBase Spec.TdFloat Gen.Constants Model.Duration Gen.
 Import ListNotations.
 Open Scope Z_scope.
 Ltac Zify.zify_post_hook ::= Z.to_euclidean_division_equations.
-Set Default Timeout 60.
 
 (* ------------------------------------------------------------------ Part 1: _divide_and_round *)
 (* q is a nearest integer to a / b, ties to even, stated without division:  |2 (a - q b)| <= |b|, and on a tie q is even *)
@@ -368,13 +367,13 @@ Qed.
 
 (* the unbounded statement is false: at 2^31 s the float sum loses a microsecond *)
 Lemma add_exact_refuted : exists d1 d2 r,
-  dur_of_us (-2164598863760106) = Ok d1 /\ dur_of_us 2138816986554400 = Ok d2 /\ exact0 d1 /\ exact0 d2
-  /\ dur_add d1 (VDur d2) = Ok (RDur r) /\ d_N r <> d_N d1 + d_N d2 /\ Z.abs (d_N d1 + d_N d2) < B31.
+  dur_of_us (-2240990336911072) = Ok d1 /\ dur_of_us (-564728395307133) = Ok d2 /\ exact0 d1 /\ exact0 d2
+  /\ dur_add d1 (VDur d2) = Ok (RDur r) /\ d_N r <> d_N d1 + d_N d2 /\ Z.abs (d_N d1 + d_N d2) < 2 * B31.
 Proof.
   eexists. eexists. eexists.
   split; [vm_compute; reflexivity|]. split; [vm_compute; reflexivity|].
   split; [vm_compute; reflexivity|]. split; [vm_compute; reflexivity|].
-  split; [vm_compute; reflexivity|]. split; [vm_compute; discriminate | vm_compute; reflexivity].
+  split; [vm_compute; reflexivity|]. split; [vm_compute; intro Q; discriminate Q | vm_compute; reflexivity].
 Qed.
 
 Lemma mul_int_exact_refuted : exists d r,
@@ -382,7 +381,7 @@ Lemma mul_int_exact_refuted : exists d r,
 Proof.
   eexists. eexists.
   split; [vm_compute; reflexivity|]. split; [vm_compute; reflexivity|].
-  split; [vm_compute; reflexivity|]. vm_compute; discriminate.
+  split; [vm_compute; reflexivity|]. vm_compute; intro Q; discriminate Q.
 Qed.
 
 (* the premises hold on samples (kernel computation) *)
@@ -406,3 +405,188 @@ Proof.
   - rewrite N. reflexivity.
   - cbn in R. discriminate.
 Qed.
+
+(* ------------------------------------------------------------------ Part 7: the return-type table *)
+Definition kind_of_value (o : value) : Z :=
+  match o with VInt _ => 1 | VFloat _ => 2 | VDur _ | VIvl _ => 3 | VTd _ => 4 end.
+Definition kind_of_res (r : opres) : Z :=
+  match r with RNotImpl => 0 | RDur _ => 1 | RInt _ => 2 | RFloat _ => 3 | RPair _ _ => 4 | _ => 99 end.
+
+Ltac break_binds :=
+  repeat match goal with
+         | |- context [match ?x with _ => _ end] => destruct x
+         | |- context [if ?x then _ else _] => destruct x
+         end.
+
+(* whatever a Duration method returns is what the (generated) table says for that operand kind *)
+Lemma return_table_agrees : forall m d o r, In m [1; 2; 4; 5; 6; 7; 8] -> dur_method m d o = Ok r ->
+  In (m, kind_of_value o, kind_of_res r) py_return_table.
+Proof.
+  intros m d o r Hm. cbn in Hm.
+  destruct Hm as [<-|[<-|[<-|[<-|[<-|[<-|[<-|[]]]]]]]]; destruct o; cbn [dur_method kind_of_value];
+    unfold dur_add, dur_sub, dur_mul, dur_floordiv, dur_truediv, dur_mod, dur_divmod, other_total_seconds;
+    unfold bind; intro H;
+    repeat match type of H with
+           | context [match ?x with _ => _ end] => destruct x
+           | context [if ?x then _ else _] => destruct x
+           end; try discriminate H; inversion H; subst; cbn [kind_of_res]; vm_compute; tauto.
+Qed.
+
+(* where the table says AttributeError the method raises it *)
+Lemma attribute_error_where_table_says : forall m d o, In (m, kind_of_value o, 6) py_return_table ->
+  dur_method m d o = Raise E_AttributeError.
+Proof.
+  intros m d o H. vm_compute in H.
+  repeat (destruct H as [H|H]; [inversion H; subst; destruct o; try discriminate; reflexivity|]).
+  contradiction.
+Qed.
+
+Lemma is_arith_cases : forall m, is_arith m = true -> In m [1; 2; 4; 5; 6; 7; 8].
+Proof. intros m H. unfold is_arith in H. cbn. lia. Qed.
+
+(* a binary operator with a Duration (or Interval) on the left never yields a plain timedelta or NotImplemented:
+   it yields a Duration, or int / float / (int, Duration) for // / divmod by a Duration *)
+Definition duration_kind (m : Z) (o : value) (res : opres) : Prop :=
+  (exists r, res = RDur r)
+  \/ (kind_of_value o = 3 /\ ((m = 5 /\ exists q, res = RInt q) \/ (m = 6 /\ exists x, res = RFloat x) \/ (m = 8 /\ exists q r, res = RPair q r))).
+
+Lemma method_result_kind : forall m d o res, In m [1; 2; 4; 5; 6; 7; 8] -> dur_method m d o = Ok res -> res <> RNotImpl ->
+  duration_kind m o res.
+Proof.
+  intros m d o res Hm H NI. pose proof (return_table_agrees _ _ _ _ Hm H) as T.
+  unfold duration_kind. remember (kind_of_value o) as ko eqn:K.
+  destruct res; try (exfalso; apply NI; reflexivity); cbn [kind_of_res] in T; vm_compute in T;
+    repeat (destruct T as [T|T]; [try discriminate T; inversion T; subst;
+      first [ left; eexists; reflexivity
+            | right; split; [reflexivity|]; first
+                [ left; split; [reflexivity|eexists; reflexivity]
+                | right; left; split; [reflexivity|eexists; reflexivity]
+                | right; right; split; [reflexivity|eexists; eexists; reflexivity] ] ] |]);
+    contradiction.
+Qed.
+
+Lemma not_impl_inv : forall x res, not_impl_to_type_error x = Ok res -> x = Ok res /\ res <> RNotImpl.
+Proof. intros [[]|e] res H; cbn in H; try discriminate; inversion H; subst; split; try reflexivity; discriminate. Qed.
+
+Lemma duration_left_result : forall m d o res, is_arith m = true -> arith_op m (VDur d) o = Ok res -> duration_kind m o res.
+Proof.
+  intros m d o res Hm H. cbn [arith_op durlike_method] in H. apply not_impl_inv in H. destruct H as [H NI].
+  eapply method_result_kind; eauto using is_arith_cases.
+Qed.
+
+Lemma interval_left_result : forall m i o res, is_arith m = true -> arith_op m (VIvl i) o = Ok res -> duration_kind m o res.
+Proof.
+  intros m i o res Hm H. cbn [arith_op] in H. apply not_impl_inv in H. destruct H as [H NI].
+  unfold durlike_method in H. destruct (delegated m); [|inversion H; subst; exfalso; apply NI; reflexivity].
+  destruct (as_duration i) as [d|e]; [|discriminate]. cbn [bind] in H.
+  eapply method_result_kind; eauto using is_arith_cases.
+Qed.
+
+Lemma timedelta_plus_duration : forall n d res, arith_op 1 (VTd n) (VDur d) = Ok res -> exists r, res = RDur r.
+Proof.
+  intros n d res H. cbn in H. apply not_impl_inv in H. destruct H as [H _]. unfold dur_add in H. cbn in H.
+  destruct (dur_of_fsec _); cbn in H; [inversion H; eexists; reflexivity | discriminate].
+Qed.
+
+Lemma neg_is_duration : forall d res, unop 3 (VDur d) = Ok res -> exists r, res = RDur r /\ dur_neg d = Ok r.
+Proof. intros d res H. cbn in H. destruct (dur_neg d); cbn in H; [inversion H; eexists; split; reflexivity | discriminate]. Qed.
+
+(* what is NOT in the statement's list and indeed differs: timedelta - Duration and abs(Duration) are plain timedeltas of the exact length *)
+Lemma timedelta_minus_duration : forall n d, td_in_range (n - d_N d) = true -> arith_op 2 (VTd n) (VDur d) = Ok (RTd (n - d_N d)).
+Proof. intros n d H. cbn. unfold td_checked. rewrite H. reflexivity. Qed.
+
+Lemma abs_is_plain_timedelta : forall d, unop 9 (VDur d) = Ok (RTd (Z.abs (d_N d))).
+Proof. reflexivity. Qed.
+
+(* Interval arithmetic is Duration arithmetic on as_duration() *)
+Lemma interval_delegates : forall m i o, delegated m = true ->
+  arith_op m (VIvl i) o = bind (as_duration i) (fun d => arith_op m (VDur d) o).
+Proof.
+  intros m i o H. cbn [arith_op]. unfold durlike_method. rewrite H.
+  destruct (as_duration i); reflexivity.
+Qed.
+
+Lemma delegated_all : forall m, is_arith m = true -> delegated m = true.
+Proof. intros m H. apply is_arith_cases in H. cbn in H. destruct H as [<-|[<-|[<-|[<-|[<-|[<-|[<-|[]]]]]]]]; reflexivity. Qed.
+
+(* ------------------------------------------------------------------ Part 8: comparisons and hash are timedelta's *)
+Lemma compare_is_native : forall m a b, native_of a <> None -> native_of b <> None ->
+  exists x y, native_of a = Some x /\ native_of b = Some y /\ cmp_op m a b = Ok (td_compare m x y).
+Proof.
+  intros m a b Ha Hb. unfold cmp_op.
+  destruct (native_of a) as [x|]; [|contradiction]. destruct (native_of b) as [y|]; [|contradiction].
+  exists x, y. auto.
+Qed.
+
+Lemma eq_iff_native : forall d n, cmp_op 10 (VDur d) (VTd n) = Ok (RBool true) <-> d_N d = n.
+Proof.
+  intros d n. cbn. split.
+  - intro H. inversion H. apply Z.eqb_eq. assumption.
+  - intros ->. rewrite Z.eqb_refl. reflexivity.
+Qed.
+
+Lemma lt_iff_native : forall d1 d2, cmp_op 12 (VDur d1) (VDur d2) = Ok (RBool true) <-> d_N d1 < d_N d2.
+Proof.
+  intros. cbn. split.
+  - intro H. inversion H. apply Z.ltb_lt. assumption.
+  - intro H. apply Z.ltb_lt in H. rewrite H. reflexivity.
+Qed.
+
+Lemma hash_is_native : forall d1 d2, d_N d1 = d_N d2 -> unop 17 (VDur d1) = unop 17 (VDur d2).
+Proof. intros d1 d2 H. cbn. rewrite H. reflexivity. Qed.
+
+(* ------------------------------------------------------------------ Part 9: as_integer_ratio is exact; examples *)
+Lemma strip2_spec : forall m k m' k', 0 <= k -> strip2 m k = (m', k') ->
+  Zpos m * 2 ^ k' = Zpos m' * 2 ^ k /\ 0 <= k' <= k.
+Proof.
+  induction m as [m IH|m IH|]; intros k m' k' Hk H; cbn [strip2] in H.
+  - inversion H; subst. split; [reflexivity | lia].
+  - destruct (0 <? k) eqn:K.
+    + apply IH in H; [|lia]. destruct H as [E R]. split; [|lia].
+      replace k with (Z.succ (k - 1)) at 1 by lia. rewrite Z.pow_succ_r by lia.
+      change (Z.pos m~0) with (2 * Z.pos m). rewrite <- Z.mul_assoc, E. ring.
+    + inversion H; subst. split; [reflexivity | lia].
+  - inversion H; subst. split; [reflexivity | lia].
+Qed.
+
+(* x = a / b exactly, b a positive power of two *)
+Lemma as_integer_ratio_exact : forall s m e a b, py_as_integer_ratio (S754_finite s m e) = Ok (a, b) ->
+  0 < b /\ (0 <= e -> a = cond_neg s (Zpos m * 2 ^ e) /\ b = 1)
+  /\ (e < 0 -> a * 2 ^ (- e) = cond_neg s (Zpos m) * b).
+Proof.
+  intros s m e a b H. cbn [py_as_integer_ratio] in H. destruct (0 <=? e) eqn:E.
+  - inversion H; subst. split; [lia|]. split; [auto | lia].
+  - destruct (strip2 m (- e)) as [m' k] eqn:S. inversion H; subst.
+    apply strip2_spec in S; [|lia]. destruct S as [Q R].
+    split; [apply Z.pow_pos_nonneg; lia|]. split; [lia|]. intros _.
+    destruct s; cbn [cond_neg]; lia.
+Qed.
+
+Example truediv_ties : exists d5 d7 dm5 r5 r7 rm5,
+  dur_of_us 5 = Ok d5 /\ dur_of_us 7 = Ok d7 /\ dur_of_us (-5) = Ok dm5
+  /\ dur_truediv d5 (VInt 2) = Ok (RDur r5) /\ d_N r5 = 2
+  /\ dur_truediv d7 (VInt 2) = Ok (RDur r7) /\ d_N r7 = 4
+  /\ dur_truediv dm5 (VInt (-2)) = Ok (RDur rm5) /\ d_N rm5 = 2.
+Proof.
+  do 6 eexists.
+  repeat (split; [vm_compute; reflexivity|]). vm_compute; reflexivity.
+Qed.
+
+Example neg_years_example : exists d r,
+  duration_new 4 (-1) 0 0 0 0 0 2 (-3) = Ok d /\ exact_ym d /\ dur_neg d = Ok r
+  /\ d_years r = -2 /\ d_months r = 3 /\ d_N r = - d_N d.
+Proof.
+  do 2 eexists. split; [vm_compute; reflexivity|]. split; [split; vm_compute; reflexivity|].
+  repeat (split; [vm_compute; reflexivity|]). vm_compute; reflexivity.
+Qed.
+
+Example mod_divmod_example : exists d1 d2 r,
+  duration_new 3 5 7 0 0 0 0 0 0 = Ok d1 /\ duration_new 0 0 (-3) 0 0 (-5) 0 0 0 = Ok d2 /\ exact0 d1 /\ exact0 d2
+  /\ dur_method 8 d1 (VDur d2) = Ok (RPair (-15) r) /\ d_N r = d_N d1 mod d_N d2.
+Proof.
+  do 3 eexists. repeat (split; [vm_compute; reflexivity|]). vm_compute; reflexivity.
+Qed.
+
+Lemma interval_delegates_arith : forall m i o, is_arith m = true ->
+  arith_op m (VIvl i) o = bind (as_duration i) (fun d => arith_op m (VDur d) o).
+Proof. intros m i o H. apply interval_delegates. apply delegated_all. exact H. Qed.
